@@ -21,6 +21,10 @@ def _setup():
     global Feedback, cmds, MAIN_REPORT, Formatter, HtmlFormatter, Location, CLASSES, CASES, OPS, SNAP, MyFmt
     global CondT, CondF, CondX, MsgX, Args, Parent, Child, GrandChild, AllFmt
     import importlib
+    if globals().get('SNAP'):
+        # a later phase in the same worker: put the library's classes back before they are snapshotted again
+        # (what an earlier execution left behind was reported there)
+        _reset_everything()
     cmds = importlib.import_module('pedal.core.commands')
     from pedal.core.feedback import Feedback
     from pedal.core.report import MAIN_REPORT
@@ -105,6 +109,7 @@ def _setup():
             for ex in extras:
                 CASES.append((cls, args, {**kw, **ex}))
     CLASSES = sorted({c for c, _ in bases} | {runtime_error, zero_division_error}, key=lambda c: c.__name__)
+    global ATTRS
     ATTRS = ('title', 'message_template', 'else_message_template', 'muted', 'category', 'priority', 'kind',
              'valence', 'score', 'correct', 'justification')
     SNAP = {c: {a: getattr(c, a) for a in ATTRS} for c in CLASSES}
@@ -122,7 +127,7 @@ def _setup():
             ('override', 'Parent', dict(title='OP2', message_template='oparent {a}')),
             ('override', 'gently', dict(title='OG')),
             ('override', 'zero_division_error', dict(title='OZ')), ('override', 'runtime_error', dict(title='OR')),
-            ('handle_delayed',)]
+            ('handle_delayed',), ('environment', 'submission'), ('environment', 'main_code')]
     globals()['BYNAME'] = {c.__name__: c for c in CLASSES}
 
 
@@ -145,6 +150,10 @@ def render(template, fields, fmt):
             spec = spec[:-len(m)].rstrip(':')
         out.append(format(val, spec))
     return ''.join(out)
+
+
+_MISSING = object()
+SNAP = None
 
 
 def _expected_trigger(cls, args, kw):
@@ -255,8 +264,11 @@ def check_recorded(ctx, cls, args, kw, fb, exc, new_act, new_ign, fmt, hist, tag
 def check_restored(ctx, hist, op):
     for c, attrs in SNAP.items():
         for a, v in attrs.items():
-            cur = getattr(c, a)
-            if cur != v or type(cur) is not type(v):
+            cur = getattr(c, a, _MISSING)
+            if cur is _MISSING:
+                ctx.fail({'symptom': 'class attribute deleted by the restore', 'class': c.__name__, 'attr': a},
+                         history=hist, want=repr(v)[:80], after=op)
+            elif cur != v or type(cur) is not type(v):
                 ctx.fail({'symptom': 'class attribute not restored after clear', 'class': c.__name__, 'attr': a,
                           'own': a in c.__dict__}, history=hist, got=repr(cur)[:80], want=repr(v)[:80], after=op)
             elif (a in c.__dict__) != OWN[c][a]:
@@ -270,11 +282,13 @@ def _reset_everything():
     """Between executions: the documented way (clear_report) -- and, so that one execution's leak
     cannot blame a later execution, force the snapshot back (a leak is reported where it happens)."""
     cmds.clear_report()
-    for c, attrs in SNAP.items():
+    for c, attrs in sorted(SNAP.items(), key=lambda kv: len(kv[0].__mro__)):      # base classes first
         for a, v in attrs.items():
             if (a in c.__dict__) and not OWN[c][a]:
                 delattr(c, a)
-            if getattr(c, a) != v:
+            if OWN[c][a] and (a not in c.__dict__ or c.__dict__[a] != v):
+                setattr(c, a, v)
+            elif getattr(c, a, _MISSING) != v:
                 setattr(c, a, v)
         if '_override_backups' in c.__dict__ and c._override_backups:
             c._override_backups.clear()
@@ -339,6 +353,56 @@ def run_delayed(ctx, delayed, hist):
                        {'class': cls.__name__, 'kw': sorted(kw), 'delayed': True})
 
 
+NEW_VALUES = {'title': 'X-title', 'message_template': 'x {a}', 'else_message_template': 'x-else', 'muted': None,
+              'category': 'student', 'priority': 'high', 'kind': 'Hint', 'valence': None, 'score': '+5%', 'correct': None,
+              'justification': 'x-just'}
+
+
+def body_override_restore(ctx):
+    """Every class x every overridable attribute: override it, end the grading in one of the three documented ways,
+    and the class is what it was -- by value and by ownership (own falsy values like muted=False, valence=0 and
+    correct=None included)."""
+    cls = CLASSES[ctx.choose(len(CLASSES), 'class')]
+    attr = ATTRS[ctx.choose(len(ATTRS), 'attribute')]
+    ending = ('clear_report', 'contextualize_report', 'Environment(Submission)')[ctx.choose(3, 'ending')]
+    twice = bool(ctx.choose(2, 'overridden-twice'))
+    _reset_everything()
+    cur = getattr(cls, attr)
+    new = NEW_VALUES[attr]
+    if attr == 'muted':
+        new = not cur
+    elif attr == 'valence':
+        new = 1 if cur != 1 else -1
+    elif attr == 'correct':
+        new = not cur
+    hist = [('override', cls.__name__, attr, repr(new), 'twice' if twice else 'once'), (ending,)]
+    ctx.observe(repr(hist))
+    ctx.set_sample(hist)
+    ctx.mark_nontrivial(repr(hist))
+    ctx.step(hist[0])
+    try:
+        cls.override(**{attr: new})
+        if twice:
+            cls.override(**{attr: cur})
+            cls.override(**{attr: new})
+    except Exception as e:
+        ctx.fail({'symptom': 'override raised', 'attr': attr, 'exception': type(e).__name__}, history=hist)
+        return
+    if getattr(cls, attr) != new:
+        ctx.fail({'symptom': 'override did not take effect', 'attr': attr}, history=hist)
+    ctx.step(ending)
+    if ending == 'clear_report':
+        cmds.clear_report()
+    elif ending == 'contextualize_report':
+        cmds.contextualize_report('x = 1\n')
+    else:
+        from pedal.core.environment import Environment
+        from pedal.core.submission import Submission
+        Environment(files=Submission(main_file='answer.py', main_code='x = 1\n'))
+    check_restored(ctx, hist, ending)
+    ctx.outcome('restored' if not ctx.fails else 'not-restored')
+
+
 def make_histories(max_ops):
     def body(ctx):
         n = ctx.choose(max_ops, 'n') + 1
@@ -370,6 +434,25 @@ def make_histories(max_ops):
                 delayed.clear()
                 check_restored(ctx, list(hist), 'clear_report')
                 changed = True
+            elif op[0] == 'environment':
+                # the third way a report is re-contextualised: an environment is set up for the next submission,
+                # handed over as a Submission object or as plain code
+                from pedal.core.environment import Environment
+                from pedal.core.submission import Submission
+                ctx.step(op)
+                before = {id(f) for f in MAIN_REPORT.feedback} | {id(f) for f in MAIN_REPORT.ignored_feedback}
+                if op[1] == 'submission':
+                    Environment(files=Submission(main_file='answer.py', main_code='x = 1\n'))
+                else:
+                    Environment(main_code='x = 1\n')
+                delayed.clear()
+                left = [f.label for f in MAIN_REPORT.feedback + MAIN_REPORT.ignored_feedback if id(f) in before]
+                if left:
+                    ctx.fail({'symptom': 'feedback of the previous submission survives the set-up of an environment',
+                              'handed_over_as': op[1]}, history=list(hist), labels=left[:5])
+                    MAIN_REPORT.clear()
+                check_restored(ctx, list(hist), 'Environment(%s)' % op[1])
+                changed = True
             elif op[0] == 'contextualize':
                 ctx.step(op)
                 cmds.contextualize_report('x = 1\n')
@@ -396,6 +479,8 @@ def bounds(tier):
 def phases(tier):
     return [
         Phase('single-construction', make_single(), setup=_setup, describe='every class x keyword mix x formatter'),
+        Phase('override-restore', body_override_restore, setup=_setup,
+              describe='every class x every overridable attribute x 3 endings x overridden once or twice'),
         Phase('histories', make_histories(3 if tier == 'quick' else 4), setup=_setup,
               describe='all operation histories up to the depth bound'),
     ]
